@@ -138,6 +138,7 @@ func flowUUID(i int) assets.FlowUUID {
 //	inspect:<flow> load and inspect a flow
 //	eval           evaluate templates in the session's context (router tests, lazy objects)
 //	find:<name>    look a flow up by name
+//	evalfn         evaluate one call of many built-in functions and router tests
 //	chlang:<flow>  change the language of a flow (must work on a copy)
 type Op string
 
@@ -151,14 +152,15 @@ var Scripts = map[string][]Op{
 	"bcastA":  {"start:4:A", "dump"},
 	"bcastB":  {"start:4:B", "dump"},
 	"hook":    {"start:5", "restore", "resume", "eval"},
+	"fn":      {"start:1", "evalfn"},
 }
 
-var ScriptNames = []string{"family", "child", "old", "legacy", "inspect", "bcastA", "bcastB", "hook"}
+var ScriptNames = []string{"family", "child", "old", "legacy", "inspect", "bcastA", "bcastB", "hook", "fn"}
 
 // CoreScripts are combined with each other in every way; the others only in ExtraPairs (quick tier)
 // and with everything in the thorough tier.
 var CoreScripts = []string{"family", "child", "old", "legacy", "inspect"}
-var ExtraPairs = [][]string{{"bcastA", "bcastB"}, {"hook", "child"}, {"hook", "hook"}}
+var ExtraPairs = [][]string{{"bcastA", "bcastB"}, {"hook", "child"}, {"hook", "hook"}, {"fn", "fn"}}
 
 // hookedSource wraps the static source; Yield is called inside FlowByUUID, which the flow cache
 // calls while holding its lock - a scheduling point inside the critical section.
@@ -302,6 +304,25 @@ func (t *Thread) Step(i int, sa flows.SessionAssets, eng flows.Engine) {
 		for _, tpl := range []string{`@(has_district("Gasabo", "Eastern Province").match)`, `@(has_district("Gasabo", "Kigali City").match)`, `@(has_ward("Rukara", "Gasabo", "Eastern Province").match)`, `@(has_state("Kigali City").match)`, `@(has_text(""))`, `@(has_text("").match)`, `@(json(object()))`, `@(if(has_number("x"), 1, 2))`, `@contact.name @results @(json(run))`, `@(count(array()))`, `@(parse_json("true"))`, `@(parse_json("[true, false]")[1])`, `@(json(parse_json("{\"a\": true}").a))`} {
 			v, _, err := eng.Evaluator().Template(t.session.MergedEnvironment(), ctx, tpl, nil)
 			w("eval %s -> %s %v", tpl, v, err)
+		}
+	case "evalfn":
+		// one call of many built-in functions and router tests (shared state behind a function shows here)
+		if t.session == nil {
+			w("evalfn: no session")
+			return
+		}
+		ctx := t.session.CurrentContext()
+		if ctx == nil {
+			w("evalfn: no context")
+			return
+		}
+		for _, tpl := range []string{
+			`@(title("ann o'neil-smith")) @(upper("abc")) @(lower("ABC")) @(format_number(1234.5)) @(format_datetime("2020-01-02T03:04:05Z")) @(format_location("Rwanda > Kigali City"))`,
+			`@(has_number("it is 1,234.5").match) @(has_number_between("12", 10, 20).match) @(has_phone("206 555 1212").match) @(has_email("a@b.co").match) @(has_pattern("abc", "b+").match)`,
+			`@(regex_match("abc123", "\\d+")) @(url_encode("a b")) @(clean("a\tb")) @(word_slice("a b c", 1)) @(remove_first_word("a b")) @(split("a,b", ",")) @(join(array("a", "b"), "-")) @(text_compare("a", "b")) @(percent(0.5)) @(epoch("2020-01-02T03:04:05Z")) @(datetime_add("2020-01-02", 1, "D")) @(legacy_add("2020-01-02", 1)) @(round(1.55, 1)) @(extract(contact, "name")) @(foreach(array("a", "b"), upper)) @(sort(array(3, 1, 2))) @(unique(array(1, 1)))`,
+		} {
+			v, _, err := eng.Evaluator().Template(t.session.MergedEnvironment(), ctx, tpl, nil)
+			w("evalfn %s -> %s %v", tpl, v, err)
 		}
 	case "chlang":
 		var fi int
